@@ -13,6 +13,10 @@ func main() {
 		os.Exit(2)
 	}
 	prop := os.Args[1]
+	if prop == "probe" {
+		probe()
+		return
+	}
 	fs := flag.NewFlagSet("harness", flag.ExitOnError)
 	seed := fs.Uint64("seed", 1, "seed")
 	tier := fs.String("tier", "quick", "quick|thorough")
